@@ -143,6 +143,14 @@ def make_inputs(ctx):
             for c in pool:
                 for units in (True, False):
                     loads.append({'cat': i, 'cleaned': False, 'units': units, 'fields': [c]})
+            if i < (1 if ctx.quick() else 3):
+                for pair in shared_raw_pairs(ctx, ctx.quick()):
+                    for units in (True, False):
+                        loads.append({'cat': i, 'cleaned': False, 'units': units, 'fields': list(pair)})
+                for req in (['sigmavMin_com', 'sigmavMid_com', 'sigmavMaj_com', 'sigmav3d_com'],
+                            ['sigmav3d_L2com', 'sigmavMaj_L2com', 'sigmavMid_L2com', 'sigmavMin_L2com']):
+                    for units in (True, False):
+                        loads.append({'cat': i, 'cleaned': False, 'units': units, 'fields': req})
     return cats, loads
 
 
@@ -160,11 +168,53 @@ def table(ctx):
     return _TABLE['t']
 
 
-def all_user_columns(ctx):
+_SNAPSHOT = {}
+
+
+def schema(ctx):
+    """Column names / dependency lists for building requests and for the oracles: the live translation when the translator
+    works, else the snapshot taken from the pinned tree (c05_table_snapshot.json) — so that the implementation-only oracles
+    still run, and can exhibit a failing input, when the loaders no longer translate."""
     t = table(ctx)
     if t:
-        return [n for (n, _, _) in t['tables']['user_dt']]
-    return []
+        return t
+    if 't' not in _SNAPSHOT:
+        import json
+        import os
+        with open(os.path.join(os.path.dirname(os.path.abspath(__file__)), 'c05_table_snapshot.json')) as f:
+            _SNAPSHOT['t'] = json.load(f)
+    return _SNAPSHOT['t']
+
+
+def all_user_columns(ctx):
+    return [n for (n, _, _) in schema(ctx)['tables']['user_dt']]
+
+
+def shared_raw_pairs(ctx, quick):
+    """Ordered requests [a, b] and [b, a] of two columns whose loaders read a common raw column (r100 and the radii /
+    sigmar / rvcirc_max compressed relative to it; sigmav3d and the principal, radial and tangential dispersions; the three
+    eigenvectors of one code): a loader that modifies what it reads shows up only for one of the two orders."""
+    t = schema(ctx)
+    users = {}
+    for c in t['cols']:
+        if c not in [n for (n, _, _) in t['tables']['user_dt']]:
+            continue
+        for r in sorted(set(t['deps'][c]['raw'])):
+            users.setdefault(r, []).append(c)
+    out = []
+    for r, cs in sorted(users.items()):
+        if len(cs) < 2:
+            continue
+        owner = r if r in cs else cs[0]
+        others = [c for c in cs if c != owner]
+        if quick:
+            others = others[:1] + others[-1:] if len(others) > 1 else others
+        for c in others:
+            out.append([c, owner])
+            out.append([owner, c])
+    if quick:
+        out = [p for p in out if '_L2com' not in p[0] or 'sigmav' in p[0]]
+    return out
 
 
 # ------------------------------------------------------------------ oracle on the implementation's outputs
